@@ -4,6 +4,8 @@ From Ink.Shell Require Import ResetProofs.
 From Ink.Gen Require Import SaveGen.
 From Ink.Engine Require Import Save.
 From Ink.Shell Require Import HostFrame HostFrameLoad.
+From Ink.Engine Require Import Api Tie.
+From Ink.Shell Require Import HostFrame Balance BetweenCalls ResetProofs.
 
 Theorem reset_ignores_state : forall (I : iface) (seed : Z) (w : world) (s' : sstate),
   w_async w = false ->
@@ -59,3 +61,64 @@ Check registrations_survive_load :
   forall (sp : ssite -> bool) (ssw : save_switches) (w : world) (j : json),
     host_regs (snd (load_state sp ssw w j)) = host_regs w.
 Print Assumptions registrations_survive_load.
+
+(* ---------------- the bookkeeping invariant between host calls ---------------- *)
+(* Inv w := nesting counter = 0 /\ (no time-limited continue pending -> no look-ahead snapshot /\
+   rewind flag clear).  It holds for a freshly constructed story and is preserved by every story
+   operation (all forms of continue, choose, jump, evaluate, set a variable, flow operations,
+   reset) that does not end in a panic — whether the call returns Ok or Err.  The code fact it rests
+   on is regenerated: continue_internal tests can_continue before touching the counters
+   (now_cont_check_first).  Counter leaks (defect e98ca2b, seeded change C04) falsify it. *)
+Theorem bookkeeping_invariant :
+  forall (I : iface) (ops : list story_op) (w : world),
+    Inv w -> no_panic I sw_now ops w -> Inv (run_story_ops I sw_now ops w).
+Proof. exact (fun I => BetweenCalls.invariant_preserved I sw_now now_cont_check_first). Qed.
+Check bookkeeping_invariant :
+  forall (I : iface) (ops : list story_op) (w : world),
+    Inv w -> no_panic I sw_now ops w -> Inv (run_story_ops I sw_now ops w).
+Print Assumptions bookkeeping_invariant.
+
+Theorem between_calls_in_every_reachable_world :
+  forall (I : iface) (ops : list story_op) (w : world),
+    Inv w -> no_panic I sw_now ops w ->
+    w_async (run_story_ops I sw_now ops w) = false ->
+    between_calls (run_story_ops I sw_now ops w).
+Proof. exact (fun I => BetweenCalls.between_calls_reachable I sw_now now_cont_check_first). Qed.
+Check between_calls_in_every_reachable_world :
+  forall (I : iface) (ops : list story_op) (w : world),
+    Inv w -> no_panic I sw_now ops w ->
+    w_async (run_story_ops I sw_now ops w) = false ->
+    between_calls (run_story_ops I sw_now ops w).
+Print Assumptions between_calls_in_every_reachable_world.
+
+Example fresh_world_satisfies_invariant : forall st seed fuel, Inv (world_init st seed fuel).
+Proof. exact BetweenCalls.inv_world_init. Qed.
+
+(* the property's statement for every reachable world: after ANY history of story operations from
+   construction (none of which panicked), with no time-limited continue pending, reset is the
+   constructor's initialisation on a blank world with the host's bindings in place *)
+Theorem reset_is_fresh_after_any_history :
+  forall (I : iface) (ops : list story_op) (st : story) (seed0 : Z) (fuel0 : N) (seed : Z),
+    no_panic I sw_now ops (world_init st seed0 fuel0) ->
+    w_async (run_story_ops I sw_now ops (world_init st seed0 fuel0)) = false ->
+    reset_state I sw_now seed (run_story_ops I sw_now ops (world_init st seed0 fuel0)) =
+    reset_globals I sw_now
+      (rebind (run_story_ops I sw_now ops (world_init st seed0 fuel0))
+              (world_init (w_story (run_story_ops I sw_now ops (world_init st seed0 fuel0))) seed
+                          (w_fuel (run_story_ops I sw_now ops (world_init st seed0 fuel0))))).
+Proof.
+  exact (fun I ops st seed0 fuel0 seed Hnp Ha =>
+           ResetProofs.reset_is_fresh_init I seed _
+             (BetweenCalls.between_calls_reachable I sw_now now_cont_check_first ops _
+                (BetweenCalls.inv_world_init st seed0 fuel0) Hnp Ha)).
+Qed.
+Check reset_is_fresh_after_any_history :
+  forall (I : iface) (ops : list story_op) (st : story) (seed0 : Z) (fuel0 : N) (seed : Z),
+    no_panic I sw_now ops (world_init st seed0 fuel0) ->
+    w_async (run_story_ops I sw_now ops (world_init st seed0 fuel0)) = false ->
+    reset_state I sw_now seed (run_story_ops I sw_now ops (world_init st seed0 fuel0)) =
+    reset_globals I sw_now
+      (rebind (run_story_ops I sw_now ops (world_init st seed0 fuel0))
+              (world_init (w_story (run_story_ops I sw_now ops (world_init st seed0 fuel0))) seed
+                          (w_fuel (run_story_ops I sw_now ops (world_init st seed0 fuel0))))).
+Print Assumptions reset_is_fresh_after_any_history.
